@@ -9,15 +9,17 @@
    Function symbols [fsem], constants [csem] are arbitrary; the power [psem] is any function with
    (s x)^q = s^q x^q for s > 0 and Abs is positively homogeneous (both satisfiable: last two theorems).
 
-   FULL STATEMENT (false of the faithful model and of the code, see the refutation and KNOWN_FINDINGS.txt):
+   FULL STATEMENT (false of the faithful model and of the code, see KNOWN_FINDINGS.txt):
      forall G e n m, infer G e = UOk (n, m) ->
        consistent G e /\ forall nu de, evalSI .. e = option_map (scale_val (scaleR (expand G n))) (evalN .. e).
    PROVED: the statement under the explicit boolean guard [guard G false e] (Model/UnitCalc.v):
-     - every exponent is a number literal or a quantity with the literally dimensionless unit   (excludes F6;
-       products / negations of literals are read correctly by the code but are outside the theorem),
-     - arguments of exp, log, trig, factorial, Max ... have a unit equivalent to dimensionless (traverse only
-       tests the dimension: finding scaled-dimensionless-argument),
-     - floor / ceiling arguments have SI scale 1 (these functions do not commute with rescaling), Abs is unary,
+     - every exponent is a closed sum / product of numbers and quantities (no variable: traverse substitutes
+       the initial value, which is not the value under every valuation; other closed forms -- log(_100) --
+       are read correctly by the repaired code but declined by the model).  Compound exponents are INSIDE
+       the theorem since the F6 repair (C04_compound_exponent_repaired),
+     - floor / ceiling arguments have SI scale 1 (these functions do not commute with rescaling); every other
+       function is unary (the code rejects Max/Min/Mod anyway).  Since the scaled-argument repair traverse
+       itself demands scale 1 of the arguments of exp, log, trig ...: no guard is needed for them,
      - every piecewise condition is well-united: relations compare equivalent units (traverse never visits
        conditions: finding piecewise-conditions-unchecked).
    All constructors are covered (numbers, constants, quantities, variables, Add, Mul, Pow, functions, Abs,
@@ -41,16 +43,13 @@ Theorem C04_condition_sound : forall fsem psem csem, psem_law psem -> abs_law fs
 Proof. exact condition_sound. Qed.
 Print Assumptions C04_condition_sound.
 
-Theorem C04_infer_refuted_compound_exponent :
-  exists G a x x' r r',
-    expo_value x = XNum 3 /\ expo_value x' = XNum 3 /\
-    infer G (EPow a x) = UOk r /\ infer G (EPow a x') = UOk r' /\
-    guard G false (EPow a x') = true /\ guard G false (EPow a x) = false /\
-    sem_equiv G (fst r) (upow [(0%Z, 1%Q)] 1) = true /\
-    sem_equiv G (fst r') (upow [(0%Z, 1%Q)] 3) = true /\
-    sem_equiv G (fst r) (fst r') = false.
-Proof. exact infer_refuted_compound_exponent. Qed.
-Print Assumptions C04_infer_refuted_compound_exponent.
+Theorem C04_compound_exponent_repaired :
+  exists r r',
+    infer G_w (EPow (EVar 0) x_sum) = UOk r /\ infer G_w (EPow (EVar 0) x_lit) = UOk r' /\
+    guard G_w false (EPow (EVar 0) x_sum) = true /\ guard G_w false (EPow (EVar 0) x_lit) = true /\
+    sem_equiv G_w (fst r) (upow [(0%Z, 1%Q)] 3) = true /\ sem_equiv G_w (fst r) (fst r') = true.
+Proof. exact infer_compound_exponent_repaired. Qed.
+Print Assumptions C04_compound_exponent_repaired.
 
 Theorem C04_error_kinds :
   (forall G e k, infer G e = UErr k ->
